@@ -58,6 +58,26 @@ func rawHeader(name string, mode, size, mtime int64, typ byte, link string, gnu 
 	return b
 }
 
+// ExtHeader renders an extension entry (PAX 'x'/'g', GNU 'L'/'K') with the given body, padded.
+func ExtHeader(typ byte, name string, body []byte, declaredSize int64) []byte {
+	var out bytes.Buffer
+	out.Write(rawHeader(name, 0644, declaredSize, 0, typ, "", typ == 'L' || typ == 'K'))
+	out.Write(body)
+	out.Write(pad(len(body)))
+	return out.Bytes()
+}
+
+// FixChecksum recomputes the checksum of the 512-byte header block at off.
+func FixChecksum(tb []byte, off int) {
+	b := tb[off : off+512]
+	copy(b[148:156], "        ")
+	sum := 0
+	for _, c := range b {
+		sum += int(c)
+	}
+	copy(b[148:156], fmt.Sprintf("%06o\x00 ", sum))
+}
+
 func pad(n int) []byte { return make([]byte, (512-n%512)%512) }
 
 func PaxRecord(k, v string) string {
